@@ -161,6 +161,8 @@ def extract_special(cls, which, rules, hashes):
                      r"copy_n(&self->\2, &other->\3, self->\1);", body)
     body = rules.sub("C15.std_copy", r"std::copy\(\s*other\.(\w+)\.get\(\),\s*other\.\1\.get\(\)\s*\+\s*([^,]+?),\s*(\w+)\.get\(\)\s*\)\s*;",
                      lambda m: "copy_n(&self->%s, &other->%s, %s);" % (m.group(3), m.group(1), conv_expr(m.group(2), members)), body)
+    # X = std::exchange(other.Y, V);  ==  X = other.Y; other.Y = V;   (X is a member of *this, distinct from other.Y)
+    body = rules.sub("C15.std_exchange", r"(?m)^(\s*)(\w+)\s*=\s*std::exchange\(\s*other\.(\w+)\s*,\s*([^;]+?)\s*\)\s*;", r"\1\2 = other.\3; other.\3 = \4;", body)
     body = rules.sub("C15.self_check", r"this\s*(==|!=)\s*&other", r"self \1 other", body)
     body = rules.sub("C15.return_this", r"return\s+\*this\s*;", "return;", body)
     # vector value assignment  X = other.X;
